@@ -368,10 +368,15 @@ Inductive entry := EErr | EAbsent | EPresent (j : val).
 
 (* _dump_cleanup_actions for one action; strict = not skip_validation (defaults are cleaned with
    skip_validation=True: a failing serialisation leaves the raw default) *)
-Definition cleanup (strict skip_none : bool) (t : cty) (v : val) : entry :=
+(* ActionTypeHint.serialize passes default=self.default: a str / bool / int / float that == the default is
+   returned as it is (first line of adapt_typehints; not propagated to nested calls) *)
+Definition ser_leaf (t : cty) (dflt : val) (v : val) : option val :=
+  if simple_scalar v && py_eq v dflt then Some v else adapt true None t v.
+
+Definition cleanup (strict skip_none : bool) (t : cty) (dflt : val) (v : val) : entry :=
   match v with
   | VNone => if skip_none then EAbsent else EPresent VNone
-  | _ => match adapt true None t v with
+  | _ => match ser_leaf t dflt v with
          | Some j => EPresent j
          | None => if strict then EErr else EPresent v
          end
@@ -405,10 +410,10 @@ Definition trim (j dj : val) : option val :=          (* None = the entry is del
   else let j' := trim_rec j dj in if val_eqb j' j then Some j else Some j'.
 
 Definition dump_entry (vr : variant) (lf : leaf) (w : val) : entry :=
-  match cleanup true (vr_skip_none vr) (lf_ty lf) w with
+  match cleanup true (vr_skip_none vr) (lf_ty lf) (lf_def lf) w with
   | EPresent j =>
       if vr_skip_default vr then
-        match cleanup false (vr_skip_none vr) (lf_ty lf) (lf_def lf) with
+        match cleanup false (vr_skip_none vr) (lf_ty lf) (lf_def lf) (lf_def lf) with
         | EPresent dj => match trim j dj with Some j' => EPresent j' | None => EAbsent end
         | _ => EPresent j
         end
